@@ -45,6 +45,7 @@ Normalisations applied to extracted text (each application is counted and report
   N8  closure `|p| EXPR` -> `|p| -> (r: T) ensures .. { EXPR }` (closure contract; body tokens unchanged)
   N9  `format!(..)` -> `format_stub()` (error-message text only; arguments must be call-free)
   N10 closure parameter `_` -> `_x`
+  N12 closure with one tuple-pattern parameter `|(a, b)| BODY` -> `|n12_p| { let (a, b) = n12_p; BODY }`
   N11 fn-local `fn` removed from the enclosing body (hoist-fns=1) and extracted as a module-level fn of its own
   D1  `log::<level>!(...)` statements dropped
   D2  `///` doc comment lines dropped
@@ -878,6 +879,15 @@ def assemble_fn_(spec, bundle, out, canary=False):
             # $1, $2, ... in a closure clause stand for the closure's parameter names in the real code (a renamed
             # parameter does not lose the annotation)
             pnames = [re.sub(r"^\s*(?:mut\s+)?(\w+).*$", r"\1", q, flags=re.S) for q in src[bar + 1:after - 1].split(",")] if after - bar > 2 else []
+            # N12: a single tuple-pattern parameter `|(a, b)| BODY` becomes `|n12_p| { let (a, b) = n12_p; BODY }`
+            # (Verus accepts only variables as closure parameters); `$1` in the annotation then names the tuple
+            n12_let = ""
+            ptxt = src[bar + 1:after - 1].strip()
+            if ptxt.startswith("(") and match_close(mask, bar + 1 + src[bar + 1:after - 1].index("(")) == bar + 1 + src[bar + 1:after - 1].rindex(")") and ptxt.endswith(")"):
+                n12_let = " let %s = n12_p;" % ptxt
+                replaces.append((bar + 1, after - 1, "n12_p"))
+                pnames = ["n12_p"]
+                out.count("N12", "%s: closure %d: tuple-pattern parameter %s bound by a `let` at the start of the body" % (where, n, " ".join(ptxt.split())))
 
             def subst(t, pnames=pnames):
                 return re.sub(r"\$(\d)", lambda m: pnames[int(m.group(1)) - 1] if int(m.group(1)) <= len(pnames) else m.group(0), t)
@@ -893,8 +903,10 @@ def assemble_fn_(spec, bundle, out, canary=False):
                 hdr += " %s %s" % (kind, ", ".join(parts))
             if is_block:
                 replaces.append((after, after, hdr + " "))
+                if n12_let:
+                    replaces.append((cb + 1, cb + 1, n12_let))
             else:
-                replaces.append((after, after, hdr + " {"))
+                replaces.append((after, after, hdr + " {" + n12_let))
                 replaces.append((ce, ce, " }"))
             out.count("N8", "%s: closure %d annotated" % (where, n))
     # ---- proof blocks
